@@ -430,7 +430,7 @@ impl Check for C08 {
         "E0 replica-network engine, hour-scale virtual time: 2-4 real OrSWotSet<2> + HLCTimestamp replicas, direct source + pull-repair source, per-node clock skew, purge at arbitrary replicas and moments; every scenario is executed twice (with and without its purge events)"
     }
     fn rule(&self) -> &'static str {
-        "Cases: 2-4 replicas with wall-clock skew up to +-12 min, 4-40 put/delete ops on 1-5 keys spread over 0.5-8 simulated hours, each op delivered to every other replica after a seeded delay <= dmax (5 s .. 40 min; dmax + skew span < 59 min, re-validated), with duplicates, or - lost direct message - by a forced repair inside the same bound; 0-12 extra repairs whose snapshot/diff/removal/modification steps are separately delayed and ordered, and 0-16 purge events at arbitrary replicas and times (plus purges between closing rounds); a fifth of the cases additionally merge full peer states (OrSWotSet::merge) at seeded times - those are judged on the local facts only. Oracles: local purge facts at every purge, and after every later event on that replica a probe that an operation of the deleting node carrying the purged delete's stamp is still refused; differential (identical scenario without purge events must end with identical live ids+timestamps on every replica); absolute last-writer-wins when the purge-free run matches it. Non-trivial = at least one tombstone was actually purged and >= 1 delete issued. Distinct = hash of the event-kind schedule and final state."
+        "Cases: 2-4 replicas with wall-clock skew up to +-12 min, 4-40 put/delete ops on 1-5 keys spread over 0.5-8 simulated hours, each op delivered to every other replica after a seeded delay <= dmax (5 s .. 40 min; dmax + skew span < 59 min, re-validated), with duplicates, or - lost direct message - by a forced repair inside the same bound; 0-12 extra repairs whose snapshot/diff/removal/modification steps are separately delayed and ordered, and 0-16 purge events at arbitrary replicas and times (plus purges between closing rounds); one case in six is a \"straggler\" history (one replica deletes a key and keeps writing every 1-6 minutes for two more hours, part of its messages taking up to dmax of 20-40 min, with 6-14 purges 61-135 minutes after the delete: stamps of one origin arrive out of order around the purge of that delete); a fifth of the cases additionally merge full peer states (OrSWotSet::merge) at seeded times - those are judged on the local facts only. Oracles: local purge facts at every purge, and after every later event on that replica a probe that an operation of the deleting node carrying the purged delete's stamp is still refused; differential (identical scenario without purge events must end with identical live ids+timestamps on every replica); absolute last-writer-wins when the purge-free run matches it. Non-trivial = at least one tombstone was actually purged and >= 1 delete issued. Distinct = hash of the event-kind schedule and final state."
     }
     fn assumptions(&self) -> Vec<String> {
         vec![
@@ -465,9 +465,44 @@ impl Check for C08 {
             _ => rng.gen_range(600_000..2_400_000).min(room),
         };
         let total = if rng.gen_bool(0.8) { rng.gen_range(2 * HOUR_MS..10 * HOUR_MS) } else { rng.gen_range(HOUR_MS / 2..2 * HOUR_MS) };
-        let nops = rng.gen_range(6..=60usize);
+        // "straggler" family (one case in six): one replica deletes a key and keeps writing every few
+        // minutes for two more hours; part of its messages take up to dmax, so stamps of one origin
+        // arrive out of order while purges of that early delete fall in between
+        let straggler = rng.gen_bool(1.0 / 6.0);
+        let dmax_ms = if straggler { rng.gen_range(1_200_000..2_400_000u64).min(room) } else { dmax_ms };
+        let nops = if straggler { rng.gen_range(0..=8usize) } else { rng.gen_range(6..=60usize) };
         let keys = rng.gen_range(1..=5u64);
         let mut events = Vec::new();
+        if straggler {
+            let w = rng.gen_range(0..n);
+            let t0 = rng.gen_range(0..total / 4);
+            let fan = |rng: &mut rand::rngs::SmallRng, slow: bool| -> Vec<(usize, u64)> {
+                let mut to = Vec::new();
+                for d in 0..n {
+                    if d != w {
+                        let copies = if rng.gen_bool(0.2) { 2 } else { 1 };
+                        for _ in 0..copies {
+                            let delay = if slow && rng.gen_bool(0.4) { rng.gen_range(0..=dmax_ms) } else { rng.gen_range(0..=dmax_ms.min(3_000)) };
+                            to.push((d, delay));
+                        }
+                    }
+                }
+                to
+            };
+            let to = fan(&mut rng, false);
+            events.push(Ev::Op { t: t0, r: w, key: 0, del: false, to, lost: Vec::new() });
+            let to = fan(&mut rng, false);
+            events.push(Ev::Op { t: t0 + 10_000, r: w, key: 0, del: true, to, lost: Vec::new() });
+            let mut t = t0 + 10_000;
+            while t < t0 + 130 * 60_000 {
+                t += rng.gen_range(60_000..360_000);
+                let to = fan(&mut rng, true);
+                events.push(Ev::Op { t, r: w, key: 1 + rng.gen_range(0..keys), del: rng.gen_bool(0.3), to, lost: Vec::new() });
+            }
+            for _ in 0..rng.gen_range(6..=14) {
+                events.push(Ev::Purge { t: t0 + rng.gen_range(61 * 60_000..135 * 60_000), r: rng.gen_range(0..n) });
+            }
+        }
         let lossy = rng.gen_bool(0.6);
         for _ in 0..nops {
             let t = rng.gen_range(0..total);
